@@ -39,10 +39,16 @@ inductive DVal
   | list (l : List Int)
   deriving DecidableEq, Repr
 
+/-- `choice`: `Selector()` assigned by value; `named`: `Selector(objects={}, check_on_set=False)` extended
+through `obj.param.p.objects[key] = value`; both without `check_on_set` and declared *empty* -/
+inductive SelKind | notSel | choice | named
+  deriving DecidableEq, Repr
+
 structure ParamDef where
   name : String
   default : DVal
   instantiate : Bool
+  sel : SelKind := .notSel
   bounds : Option (Int × Int)
   deriving DecidableEq, Repr
 
@@ -97,6 +103,8 @@ structure Watcher where
 structure PCopy where
   bounds : Option (Int × Int)
   constant : Bool
+  /-- Selector: the copy's own `_objects` list and `names` dict (cells; a dict `{'k<v>': v}` is its values) -/
+  slots : Option (Nat × Nat) := Option.none
   deriving DecidableEq, Repr
 
 structure Obj where
@@ -115,6 +123,9 @@ structure World where
   nextPid : Nat
   /-- method invocations `(self, method name)`, oldest first -/
   log : List (Nat × String)
+  /-- the `_objects` / `names` containers of the *class* Selector Parameters: (class, parameter, cell, cell).
+  They belong to the classes, which copy and pickle take by reference. -/
+  clsSlots : List (Nat × String × Nat × Nat) := []
   deriving DecidableEq, Repr
 
 inductive Err
@@ -183,7 +194,11 @@ def World.setObj (w : World) (o : Nat) (f : Obj → Obj) : World :=
   | some ob => { w with objs := w.objs.set o (f ob) }
   | Option.none => w
 
-/-- `_instantiated_parameter`: create the per-instance Parameter copy of `p` if it does not exist -/
+def World.clsSlot (w : World) (cls : Nat) (p : String) : Option (Nat × Nat) :=
+  (w.clsSlots.find? (fun e => e.1 = cls ∧ e.2.1 = p)).map (·.2.2)
+
+/-- `_instantiated_parameter`: create the per-instance Parameter copy of `p` if it does not exist;
+`_instantiate_param_obj` gives it copies of the mutable slots (`_objects`, `names`) of the class Parameter -/
 def World.touchParam (w : World) (o : Nat) (p : String) : World :=
   match w.objs[o]? with
   | Option.none => w
@@ -193,7 +208,14 @@ def World.touchParam (w : World) (o : Nat) (p : String) : World :=
     | Option.none =>
       match (w.cls? ob).bind (·.params.find? (·.name = p)) with
       | Option.none => w
-      | some d => w.setObj o fun ob => { ob with pcopies := insert ob.pcopies p { bounds := d.bounds, constant := false } }
+      | some d =>
+        match (if d.sel = .notSel then Option.none else w.clsSlot ob.cls p) with
+        | Option.none =>
+          w.setObj o fun ob => { ob with pcopies := insert ob.pcopies p { bounds := d.bounds, constant := false } }
+        | some (co, cn) =>
+          ({ w with cells := w.cells ++ [deref w.cells co, deref w.cells cn] }).setObj o fun ob =>
+            { ob with pcopies := insert ob.pcopies p
+                { bounds := d.bounds, constant := false, slots := some (w.cells.length, w.cells.length + 1) } }
 
 /-- `obj.param._watch(..)`: append to `watchers[name]['value']` for every name -/
 def World.addWatcher (w : World) (wt : Watcher) : World :=
@@ -382,6 +404,7 @@ inductive Op
   | setAttr (o : Nat) (name : String) (a : Arg)            -- `obj.name = a` (not a parameter)
   | mutAttr (o : Nat) (name : String) (n : Int)            -- `obj.name.append(n)`
   | watch (o : Nat) (p : String) (target : Nat) (cb : String)   -- `obj.param.watch(target.cb, [p])`
+  | selAdd (o : Nat) (p : String) (n : Int)                -- `obj.param.p.objects['k<n>'] = n`
   deriving DecidableEq, Repr
 
 /-- instantiate=True defaults are deep-copied into the new object -/
@@ -414,6 +437,21 @@ def doNew (w : World) (cls : Nat) (kwargs : List (String × Arg)) : Except Err W
       .ok (w.initDeps o c.methods)
     else .error .unsupported
 
+/-- `Selector._validate` without `check_on_set` on the instance's own Parameter: a value that is not among
+`_objects` is appended (`_ensure_value_is_in_objects`).  `none`: outside the fragment. -/
+def World.ensureInObjects (w : World) (o : Nat) (p : String) (v : Val) : Option World :=
+  match (w.objs[o]?).bind (fun ob => (w.cls? ob).bind (·.params.find? (·.name = p))) with
+  | Option.none => Option.none
+  | some d =>
+    match d.sel with
+    | .notSel => some w
+    | .named => Option.none
+    | .choice =>
+      match v, (w.objs[o]?).bind (fun ob => (lookup ob.pcopies p).bind (·.slots)) with
+      | .int n, some (co, _) =>
+        if n ∈ deref w.cells co then some w else some { w with cells := w.cells.set co (deref w.cells co ++ [n]) }
+      | _, _ => Option.none
+
 /-- `obj.p = v` -- src: Parameter.__set__ -/
 def doSet (w : World) (o : Nat) (p : String) (a : Arg) : Except Err World :=
   match w.objs[o]? with
@@ -425,14 +463,29 @@ def doSet (w : World) (o : Nat) (p : String) (a : Arg) : Except Err World :=
       if c.params.any (·.name = p) then
         let (v, w) := evalArg w a
         let w := w.touchParam o p
-        match w.getVal o p with
-        | Option.none => .error .unsupported
-        | some old =>
+        match w.getVal o p, w.ensureInObjects o p v with
+        | some old, some w =>
           let w := w.setObj o fun ob => { ob with values := insert ob.values p v }
           let w := w.updateDeps o p c.methods
           let ws := sortByPrec (((w.objs[o]?).bind (fun ob => lookup ob.watchers p)).getD [])
           .ok { w with log := w.log ++ ws.filterMap (fun wt => callWatcher w wt p old v) }
+        | _, _ => .error .unsupported
       else .error .unsupported
+
+/-- `obj.param.p.objects['k<n>'] = n` on a names-declared Selector: `ListProxy.__setitem__` appends to
+`_objects` and records the name (a key that exists already names the same object: nothing changes) -/
+def doSelAdd (w : World) (o : Nat) (p : String) (n : Int) : Except Err World :=
+  let w := w.touchParam o p
+  match (w.objs[o]?).bind (fun ob => lookup ob.pcopies p) with
+  | some pc =>
+    match pc.slots, (w.objs[o]?).bind (fun ob => (w.cls? ob).bind (·.params.find? (·.name = p))) with
+    | some (co, cn), some d =>
+      if d.sel = .named then
+        if n ∈ deref w.cells cn then .ok w
+        else .ok { w with cells := (w.cells.set co (deref w.cells co ++ [n])).set cn (deref w.cells cn ++ [n]) }
+      else .error .unsupported
+    | _, _ => .error .unsupported
+  | Option.none => .error .unsupported
 
 def doMutate (w : World) (o : Nat) (p : String) (n : Int) : Except Err World :=
   match w.getVal o p with
@@ -478,6 +531,7 @@ def step (w : World) : Op → Except Err World
   | .setAttr o name a => doSetAttr w o name a
   | .mutAttr o name n => doMutAttr w o name n
   | .watch o p t cb => doWatch w o p t cb
+  | .selAdd o p n => doSelAdd w o p n
 
 /-- a history: stops at the first operation outside the fragment -/
 def runOps : World → List Op → Except Err World
@@ -521,6 +575,7 @@ def renWatcher (no np : Nat) (wt : Watcher) : Watcher :=
 /-- the deep copy of one object's state, before `__setstate__` -/
 def renObj (no nc np : Nat) (ob : Obj) : Obj :=
   { ob with values := ob.values.map (fun kv => (kv.1, renVal no nc kv.2)),
+            pcopies := ob.pcopies.map (fun kv => (kv.1, { kv.2 with slots := kv.2.slots.map fun s => (nc + s.1, nc + s.2) })),
             attrs := ob.attrs.map (fun kv => (kv.1, renVal no nc kv.2)),
             watchers := ob.watchers.map (fun kv => (kv.1, kv.2.map (renWatcher no np))),
             dyn := ob.dyn.map (fun kv => (kv.1, kv.2.map (renWatcher no np))) }
